@@ -3,11 +3,11 @@
 
 Three layers, all run on every invocation:
   1. Coq obligations of Properties_C16.v (theorems about every schedule of the policy / container models:
-     StripedSet with both policies, CuckooSet with the striping policy; the cuckoo linearizability theorem is for
-     traces in which resize() did not drop an item (C17), the no-duplicate theorem is unconditional; for CuckooSet
-     with the refinable policy the lock / ownership protocol is proved (a thread that returned from acquire() holds
-     cells of the current lock arrays, critical sections exclude each other and the resizer), linearizability under
-     that policy is covered by layers 2 and 3 only).
+     StripedSet and CuckooSet with both policies; the cuckoo linearizability theorem is for
+     traces in which resize() did not drop an item (C17), the no-duplicate theorem is unconditional; both hold for
+     the striping and the refinable policy; for the refinable policy also the lock / ownership protocol: a thread
+     that returned from acquire() holds cells of the current lock arrays, critical sections exclude each other and
+     the resizer).
   2. Step correspondence: extracted models (Model/StripedConc.v, Model/CuckooConc.v) against the real intrusive
      StripedSet / CuckooSet under the deterministic scheduler, same programs and schedules, event logs compared
      line by line.
